@@ -328,7 +328,7 @@ func runEngineMP(p *Prog, o *obls) {
 				if cl, ok := in.(*ssa.Call); ok && cl.Call.StaticCallee() == fn {
 					okArgs := false
 					for _, a := range cl.Call.Args {
-						if p.originFullSlice(a) == ssa.Value(c.Fn.Params[1]) {
+						if pp := packetParams(c); len(pp) > 1 && p.originFullSlice(a) == ssa.Value(pp[1]) {
 							okArgs = true
 						}
 					}
@@ -522,7 +522,10 @@ func (p *Prog) resolveEnqueue(key string) *ssa.Function {
 		parent := p.FuncByKey(strings.TrimSuffix(key, "$RTPWriter"))
 		cl, _ := p.PktClosures()
 		for _, c := range cl {
-			if c.Kind == RTPWriter && c.Fn.Parent() == parent && parent != nil {
+			if c.Kind != RTPWriter || parent == nil {
+				continue
+			}
+			if c.Fn.Parent() == parent || (c.Wrapper != nil && c.Conv != nil && c.Conv.Parent() == parent) {
 				return c.Fn
 			}
 		}
